@@ -159,8 +159,10 @@ class World:
             root = ExpressionParser().parse(cfg["start"])
         except Exception:
             root = None
+        self.pending = []
         if root is not None and trees.size(root) <= MAX_NODES and not trees.audit(root):
             self._admit(root, None, 0)
+            self.pending.extend(self.round_trip(root, f"parsed from {cfg['start']!r}"))
         else:
             res.stats["start_rejected"] += 1
 
@@ -273,7 +275,8 @@ class World:
     # ------------------------------------------------------------------
     def apply(self, op):
         st = self.res.stats
-        fs = []
+        fs = self.pending
+        self.pending = []
         if not self.states:
             self.res.events.append("no-start")
             return fs
@@ -372,6 +375,7 @@ class World:
             fs.append(Finding("C09", key,
                               f"{rule_name} at node {ni} ({local}) of {s.printed!r} -> {self._safe_str(new_root)!r}: "
                               f"{cmp_.witness}"))
+        fs.extend(self.round_trip(new_root, f"{rule_name} on {s.printed!r}"))
         # 4. prints and re-parses
         from mathy_core.parser import ExpressionParser
         text = None
@@ -411,6 +415,36 @@ class World:
         self.res.events.append(f"expand {si} {rule_name} {ni} -> {struct_hash(new_root)} f={len(fs)}")
         return fs
 
+    def round_trip(self, root, how):
+        """C04 on one tree: its text is accepted by a fresh parser, the re-parsed
+        tree is equivalent and has the same variables.  Returns findings (C04)."""
+        from mathy_core.parser import ExpressionParser
+        st = self.res.stats
+        st["c04.trees"] += 1
+        try:
+            text = str(root)
+        except Exception as e:  # noqa
+            return [Finding("C04", {"clause": "print", "exc": type(e).__name__},
+                            f"str() of {trees.show(root)} ({how}) raised {type(e).__name__}")]
+        try:
+            back = ExpressionParser().parse(text)
+        except Exception as e:  # noqa
+            return [Finding("C04", {"clause": "reparse", "kind": "rejected", "site": self._reparse_site(root)},
+                            f"{trees.show(root)} ({how}) prints as {text!r}; the parser rejects it "
+                            f"({type(e).__name__})")]
+        out = []
+        c = self._equiv(root, back)
+        st["c04." + c.verdict] += 1
+        if c.verdict == "diff":
+            out.append(Finding("C04", {"clause": "reparse", "kind": "differs", "site": self._reparse_site(root)},
+                               f"{trees.show(root)} ({how}) prints as {text!r} and re-parses to "
+                               f"{trees.show(back)}: {c.witness}"))
+        va, vb = trees.variables_of(root), trees.variables_of(back)
+        if va != vb:
+            out.append(Finding("C04", {"clause": "variables", "site": self._reparse_site(root)},
+                               f"{trees.show(root)} ({how}) prints as {text!r}; variables {va} became {vb}"))
+        return out
+
     def _reparse_site(self, root):
         """depth-1 shape of the smallest subtree that does not round-trip."""
         from mathy_core.parser import ExpressionParser
@@ -428,7 +462,9 @@ class World:
         return "context:" + desc(root, 1)
 
     def finish(self):
-        return []
+        fs = self.pending
+        self.pending = []
+        return fs
 
 
 # --------------------------------------------------------------------------
@@ -544,6 +580,8 @@ class RewriteSim:
     distinct_measure = "deep_states"
 
     def plan(self, prop, tier):
+        if prop == "C04":
+            return [("episodes", 5000 if tier == "quick" else 150000)]
         return [("episodes", 6000 if tier == "quick" else 200000)]
 
     def batch_size(self, stratum):
@@ -556,7 +594,15 @@ class RewriteSim:
         cfg = {"prop": prop, "stratum": stratum, "eq_seed": rng.randrange(2 ** 32)}
         src = rng.random()
         planted = []
-        if src < 0.25:
+        if prop == "C04" and src < 0.45:
+            # trees "obtainable as parse(s) for any string s": the broad documented grammar
+            g = {"depth": rng.choice([1, 2, 3, 4]), "floats": True, "fact": rng.random() < 0.6,
+                 "sgn": rng.random() < 0.5, "brackets": rng.random() < 0.3, "endash": rng.random() < 0.2,
+                 "upper": False, "space": rng.choice([0, 1, 2]), "eq": rng.random() < 0.5,
+                 "vars": rng.choice(["xyz", "abc", "pqrs", "xy"]), "max_len": 200}
+            text = gen.valid_text(rng, g) if rng.random() < 0.85 else rng.choice(gen.CORPUS)
+            cfg["source"] = "parser-grammar"
+        elif src < 0.25:
             from mathy_core import problems
             name, kw = rng.choice(PROBLEM_GENS)
             _random.seed(rng.randrange(2 ** 32))
@@ -643,6 +689,14 @@ class RewriteSim:
         return []
 
     def rule_text(self, prop):
+        if prop == "C04":
+            return ("Same seeded search-agent episodes as C09 (start text -> parse -> sequences of real rewrites "
+                    "on cloned copies), with start texts biased to the broad documented grammar (functions, "
+                    "factorials, brackets, implicit products, equations). Every tree the episode touches -- the "
+                    "parsed start and every rewrite result, admitted or not -- is printed with str(), parsed by a "
+                    "fresh parser and compared: accepted, exactly-rational-equivalent at sampled points (planted "
+                    "solutions and affine roots for equations), same variable set. distinct_nontrivial = distinct "
+                    "structural hashes of trees reached by at least two rewrites.")
         return ("Seeded search-agent episodes: a start expression (repo problem generators under the run seed, "
                 "inputs of rules/*.test.json, own grammar incl. equations with a planted solution), then <= 24 "
                 "operations on a pool of <= 40 live states: EXPAND(state, rule config, node) through the real "
